@@ -120,3 +120,22 @@ pub fn debug_plan(driver: &str, spec: &str) -> i32 {
     println!("events {:?}\nresults {:?}\nconnections {} wire {:?}\nproblems {:?}\nmachinery {:?}", o.events, o.results, o.connections, o.wire, o.problems, o.machinery);
     if o.problems.is_empty() && o.machinery.is_empty() { 0 } else { 1 }
 }
+
+/// C16, submission-time clause on the real client handles: the baseline workload of both drivers contains two statically
+/// invalid submissions (publish to a wildcard topic, empty SUBSCRIBE); they must be refused and never reach the wire.
+pub fn run_c16_part(report: &mut Report) {
+    let known = KnownFindings::load();
+    for (driver, execute) in [("threaded", threaded_h::execute as fn(&Plan) -> Outcome), ("tokio", tokio_h::execute as fn(&Plan) -> Outcome)] {
+        let o = execute(&Plan::default());
+        report.add_count("client_handle_executions", 1);
+        for m in &o.machinery { report.machinery_errors.push(format!("{} baseline: {}", driver, m)); }
+        for (signature, detail) in &o.problems {
+            if let Some(bare) = signature.strip_prefix("C16:") {
+                let v = Violation::new("C16", format!("{}: {}", driver, bare), detail.clone());
+                if let Some(k) = known.matches(&v) { report.known_hit.insert((v.property.clone(), format!("{} [{}]", k.what_fails, k.signature))); continue; }
+                let path = write_replay("C16", &format!("{}-{}", driver, bare), &json!({"kind": "driver-plan", "driver": driver, "plan": "baseline", "results": o.results, "wire_packet_types_per_connection": o.wire, "signature": signature}));
+                report.violations.push((v, path));
+            }
+        }
+    }
+}
